@@ -309,27 +309,24 @@ func (x *executor) checkFrameRef(m *machine, fr *frame, in ssa.Instruction, heap
 		}
 		return mkOr(alts...)
 	}
+	ownAlloc := false
 	if v, ok := numeralValue(ref); ok && v.Sign() < 0 {
-		// own allocation: check only enclosing loops allocated-before marks
-		for _, f := range m.stack {
-			for _, lr := range f.active {
-				if !lr.li.blocks[f.block] && f == fr {
-					continue
-				}
-				g := allowed(lr.modRefs, lr.allocMark)
-				if !isTrue(g) {
-					x.oblige(m, "frame", x.instrName(fr, in, "frame")+"@loop"+lr.lc.key, g, nil, "store target is in the loop's modifies clause")
-				}
-			}
-		}
-		return
+		ownAlloc = true // allocated by this call: always writable at function level
 	}
-	g := allowed(x.modSet, 0)
-	x.oblige(m, "frame", x.instrName(fr, in, "frame"), g, nil, "store target is in the function's modifies clause")
+	if !ownAlloc {
+		g := allowed(x.modSet, 0)
+		x.oblige(m, "frame", x.instrName(fr, in, "frame"), g, nil, "store target is in the function's modifies clause")
+	}
+	// enclosing loops (of every frame on the stack) that are still being executed
 	for _, f := range m.stack {
 		for _, lr := range f.active {
+			if !lr.li.blocks[f.block] {
+				continue
+			}
 			g := allowed(lr.modRefs, lr.allocMark)
-			x.oblige(m, "frame", x.instrName(fr, in, "frame")+"@loop"+lr.lc.key, g, nil, "store target is in the loop's modifies clause")
+			if !isTrue(g) {
+				x.oblige(m, "frame", x.instrName(fr, in, "frame")+"@loop"+lr.lc.key, g, nil, "store target is in the loop's modifies clause")
+			}
 		}
 	}
 }
